@@ -625,3 +625,156 @@ def identity_presentation(rng, cls, k=0):
         T = _SYM_ROT[k % len(_SYM_ROT)]
         return dict(okw=dict(transform=T.copy()), T=T.copy(), vects=None, mn_fixed=False, stiff='cubic')
     raise ValueError(cls)
+
+
+# ----------------------------------------------------------------------------
+# forms in which a caller hands positions to displacement() / strain() / stress()
+#
+# "same numbers" forms: the container / memory layout changes, the float64 values do not.
+SAME_VALUE_FORMS = ['list-of-lists', 'tuple-of-tuples', 'list-of-tuples', 'list-of-row-arrays', 'fortran-order', 'row-strided-view',
+                    'column-strided-view', 'negative-stride-view', 'read-only', 'float128']
+# narrow floating types: the numbers are first rounded to the type (the reference is evaluated at exactly those numbers)
+NARROW_FLOAT_FORMS = ['float32', 'float16', 'float32-fortran-order', 'list-of-float32-scalars']
+# integer-valued coordinates (grid nodes, lattice sites in integer units)
+INTEGER_FORMS = ['int64', 'int32', 'int16', 'int8', 'uint8', 'uint16', 'list-of-int-lists', 'tuple-of-int-tuples', 'int64-column-strided-view',
+                 'int64-read-only', 'int-valued-float32', 'int64-fortran-order']
+SINGLE_POINT_FORMS = ['int-list', 'int-tuple', 'int64-array', 'int8-array', 'float32-array', 'float-tuple', 'row-of-int64-array',
+                      'int64-array-(1,3)', 'float32-array-(1,3)', 'int-list-of-one-list']
+EMPTY_FORMS = ['float64-(0,3)', 'int64-(0,3)', 'float32-(0,3)']
+
+
+def same_value_form(x, form):
+    """x: float64 (N,3).  Returns the same numbers in another container / layout."""
+    x = np.asarray(x, float)
+    if form == 'list-of-lists':
+        return x.tolist()
+    if form == 'tuple-of-tuples':
+        return tuple(tuple(row) for row in x.tolist())
+    if form == 'list-of-tuples':
+        return [tuple(row) for row in x.tolist()]
+    if form == 'list-of-row-arrays':
+        return [row.copy() for row in x]
+    if form == 'fortran-order':
+        a = np.asfortranarray(x.copy())
+        assert a.flags.f_contiguous and not a.flags.c_contiguous
+        return a
+    if form == 'row-strided-view':                    # every other row of a larger array whose other rows hold NaN
+        base = np.full((2 * len(x), 3), np.nan)
+        base[::2] = x
+        return base[::2]
+    if form == 'column-strided-view':                 # every other column of an (N,6) array
+        base = np.full((len(x), 6), np.nan)
+        base[:, ::2] = x
+        return base[:, ::2]
+    if form == 'negative-stride-view':
+        base = x[::-1].copy()
+        return base[::-1]
+    if form == 'read-only':
+        a = x.copy()
+        a.setflags(write=False)
+        return a
+    if form == 'float128':
+        return x.astype(np.longdouble)
+    raise KeyError(form)
+
+
+def narrow_float_form(x, form):
+    """(argument, float64 array of exactly the numbers the argument holds)."""
+    x = np.asarray(x, float)
+    with np.errstate(over='ignore', under='ignore'):
+        if form == 'float32':
+            a = x.astype(np.float32)
+        elif form == 'float16':
+            a = x.astype(np.float16)
+        elif form == 'float32-fortran-order':
+            a = np.asfortranarray(x.astype(np.float32))
+        elif form == 'list-of-float32-scalars':
+            a32 = x.astype(np.float32)
+            return [[v for v in row] for row in a32], a32.astype(float)
+        else:
+            raise KeyError(form)
+    return a, a.astype(float)
+
+
+def integer_form(nodes, form):
+    """nodes: int64 (N,3).  None when the type cannot hold the nodes."""
+    nodes = np.asarray(nodes, np.int64)
+    if form in ('int64', 'int32', 'int16', 'int8', 'uint8', 'uint16'):
+        info = np.iinfo(form)
+        if nodes.min() < info.min or nodes.max() > info.max:
+            return None
+        return nodes.astype(form)
+    if form == 'list-of-int-lists':
+        return [[int(v) for v in row] for row in nodes]
+    if form == 'tuple-of-int-tuples':
+        return tuple(tuple(int(v) for v in row) for row in nodes)
+    if form == 'int64-column-strided-view':
+        base = np.full((len(nodes), 6), -77, np.int64)
+        base[:, ::2] = nodes
+        return base[:, ::2]
+    if form == 'int64-read-only':
+        a = nodes.copy()
+        a.setflags(write=False)
+        return a
+    if form == 'int-valued-float32':
+        return nodes.astype(np.float32)
+    if form == 'int64-fortran-order':
+        return np.asfortranarray(nodes.copy())
+    raise KeyError(form)
+
+
+def single_point_form(node, xrow, form):
+    """node: int64 (3,), xrow: float64 (3,).  Returns (argument, float64 (3,) numbers it holds)."""
+    node = np.asarray(node, np.int64)
+    if form == 'int-list':
+        return [int(v) for v in node], node.astype(float)
+    if form == 'int-tuple':
+        return tuple(int(v) for v in node), node.astype(float)
+    if form == 'int64-array':
+        return node.copy(), node.astype(float)
+    if form == 'int8-array':
+        return node.astype(np.int8), node.astype(float)
+    if form == 'float32-array':
+        a = np.asarray(xrow, np.float32)
+        return a, a.astype(float)
+    if form == 'float-tuple':
+        return tuple(float(v) for v in xrow), np.asarray(xrow, float)
+    if form == 'row-of-int64-array':                  # a row view of a 2-D integer array
+        base = np.stack([node, node + 5, node - 3])
+        return base[0], node.astype(float)
+    if form == 'int64-array-(1,3)':
+        return node.reshape(1, 3).copy(), node.astype(float)
+    if form == 'float32-array-(1,3)':
+        a = np.asarray(xrow, np.float32).reshape(1, 3)
+        return a, a[0].astype(float)
+    if form == 'int-list-of-one-list':
+        return [[int(v) for v in node]], node.astype(float)
+    raise KeyError(form)
+
+
+def empty_form(form):
+    return np.zeros((0, 3), dict((('float64-(0,3)', float), ('int64-(0,3)', np.int64), ('float32-(0,3)', np.float32)))[form])
+
+
+_NODE_SEEDS = np.array([[3, 0, 0], [0, 3, 0], [0, 0, 3], [-3, 0, 0], [0, -3, 0], [0, 0, -3], [2, 1, 0], [1, 1, 1], [-2, 3, 1], [1, -2, 2], [0, 2, -1],
+                        [4, 0, 1], [-1, -1, 5], [5, 2, 0], [0, 1, 4]], np.int64)
+NODE_LIMIT = 12           # |coordinate| <= 12: representable in every integer type generated (int8 included), exactly in float16/float32
+
+
+def integer_nodes(rng, m, n, nmax=10, nonneg=False):
+    """Integer grid nodes (dislocation-frame Cartesian coordinates).
+    Returns (off: nodes with distance >= 0.5 from the line and >= 0.05 rad from the cut;
+             cut: nodes exactly on the cut half-plane x.m < 0, x.n == 0 (exist for axis-aligned m, n only);
+             cont: nodes exactly on its continuation x.m > 0, x.n == 0)."""
+    cand = np.concatenate([_NODE_SEEDS, rng.integers(-NODE_LIMIT, NODE_LIMIT + 1, (80, 3))])
+    if nonneg:
+        cand = np.abs(cand)
+    _u, first = np.unique(cand, axis=0, return_index=True)
+    cand = cand[np.sort(first)]                       # duplicates removed, order kept
+    x, y = cand @ m, cand @ n
+    r = np.hypot(x, y)
+    t = np.arctan2(y, x)
+    off = (r >= 0.5) & (np.abs(t) <= np.pi - 0.05)
+    cut = (r >= 0.5) & (y == 0) & (x < 0)
+    cont = (r >= 0.5) & (y == 0) & (x > 0)
+    return cand[off][:nmax], cand[cut][:4], cand[cont][:4]
